@@ -3,15 +3,15 @@ CHECK_DEADLOCK FALSE
 CONSTANTS
   CHUNK = 500
   RSLOTS = 4
-  DENSE = 6
-  NSCALE = 3
-  EDGEW = 2
-  SEDGEW = 1
-  POLEW = 16
-  EQW = 8
-  MERW = 2
-  LESTRIDE = 6
-  SWEEPLAT = 40
-  SWEEPLON = 30
-  NRAND = 2000
-  NLONS = 1
+  DENSE = 16
+  NSCALE = 8
+  EDGEW = 4
+  SEDGEW = 2
+  POLEW = 32
+  EQW = 16
+  MERW = 4
+  LESTRIDE = 3
+  SWEEPLAT = 60
+  SWEEPLON = 50
+  NRAND = 8000
+  NLONS = 2
